@@ -6,13 +6,18 @@
 HERE="$(cd "$(dirname "$0")/.." && pwd)"
 WHAT="$1"; OUT="${2:-/dev/stdout}"
 ALL="C01 C02 C03 C04 C05 C06 C07 C08 C09 C10 C11 C12 C13 C14 C15 C16 C17 C18 C19 C20"
-row() { # name src checks...
+row() { # name src checks...   (env KEEP_FOUND=dir keeps the shrunk scenarios, SEEDS="1 2" repeats per seed)
     local name="$1" src="$2"; shift 2
     local res; res=$(NOTEST=${NOTEST:-1} "$HERE/tools/mutant.sh" "$name" "$src" "$@" 2>&1)
     local caught="" missed=""
     for c in "$@"; do
-        rc=$(echo "$res" | grep -E "^$name $c rc=" | sed -E 's/.* rc=([0-9]+) .*/\1/')
-        case "$rc" in 1) caught="$caught $c" ;; 0) missed="$missed $c" ;; *) missed="$missed $c(rc=$rc)" ;; esac
+        n=$(echo "$res" | grep -cE "^$name $c rc=")
+        n1=$(echo "$res" | grep -cE "^$name $c rc=1 ")
+        n2=$(echo "$res" | grep -cE "^$name $c rc=[2-9]")
+        if [ "$n" -gt 0 ] && [ "$n1" -eq "$n" ]; then caught="$caught $c"
+        elif [ "$n1" -gt 0 ]; then caught="$caught $c($n1/$n)"
+        elif [ "$n2" -gt 0 ] || [ "$n" -eq 0 ]; then missed="$missed $c(inconclusive)"
+        else missed="$missed $c"; fi
     done
     first=$(echo "$res" | grep -E " rc=1 " | head -1 | sed -E 's/^[^ ]+ (C[0-9]+) rc=1 ([0-9.]+s) (.*)$/\1 in \2: \3/' | cut -c1-160)
     echo "| $name | ${caught:- -} | ${missed:- -} | $first |" >> "$OUT"
